@@ -298,7 +298,9 @@ def run_case(case: Dict[str, Any]) -> Dict[str, Any]:
                         return p
                 raise OSError('no free port')
             port = fresh(hosts[0]) if case['port'] == 'fixed' else 0
-            ports = [fresh(hosts[0]) if p == 'fixed' else 0 for p in case['ports']]
+            # 'primary': an additional port carrying the number given as --port, which a unix-socket deployment does not bind
+            # as primary (so it is an ordinary additional TCP port there)
+            ports = [fresh(hosts[0]) if p == 'fixed' else port if p == 'primary' else 0 for p in case['ports']]
             args = ['--hostname', case['hostname'], '--port', str(port), '--num-acceptors', str(case['acceptors']),
                     '--num-workers', str(case['workers']), '--log-level', 'CRITICAL']
             if case['hostnames']:
@@ -536,6 +538,7 @@ def run_case(case: Dict[str, Any]) -> Dict[str, Any]:
         shutil.rmtree(run_dir, ignore_errors=True)
     obs.update({'mode:' + case['mode']: 1, 'configs': 1, 'hashseed:%d' % case['hashseed']: 1,
                 'os_assigned_configs': 1 if (case['port'] == 0 or 0 in case['ports']) else 0,
+                'unix_with_port_number_reused_as_additional': 1 if 'primary' in case['ports'] else 0,
                 'multi_host_configs': 1 if len(hosts) > 1 else 0, 'unix_configs': 1 if case['unix'] else 0})
     nontrivial = len(hosts) * (len(case['ports']) + 1) > 1 or case['port'] == 0 or case['unix']
     seen = set()
@@ -573,6 +576,8 @@ def all_configs() -> List[Dict[str, Any]]:
                         if unix and port == 0:
                             continue    # --port is ignored with a unix socket: one representative is enough
                         out.append({'hostname': hostname, 'hostnames': hostnames, 'port': port, 'ports': ports, 'unix': unix})
+            for ports in (['primary'], ['primary', 'fixed'], ['fixed', 'primary']):
+                out.append({'hostname': hostname, 'hostnames': hostnames, 'port': 'fixed', 'ports': ports, 'unix': True})
     return out
 
 
@@ -584,7 +589,8 @@ def cases(tier: str, seed: int):
     if tier == 'quick':
         # a covering sample: every configuration shape at least once, modes and hash seeds rotated
         rng.shuffle(cfgs)
-        picked = cfgs[:44]
+        cfgs.sort(key=lambda c: 0 if 'primary' in c['ports'] else 1)        # stable: the rare shape is always sampled
+        picked = cfgs[:3] + cfgs[18:59]
     else:
         picked = cfgs
     for k, (mode, sg) in enumerate([(m, sg) for sg in ('SIGINT', 'SIGTERM', 'SIGHUP', 'SIGQUIT') for m in (modes if tier != 'quick' else [modes[hash(sg) % 1]])] if tier != 'quick'
@@ -606,7 +612,7 @@ def cases(tier: str, seed: int):
 
 def floors(tier: str) -> Dict[str, int]:
     return {'configs': 30, 'endpoints_probed': 60, 'shutdowns_checked': 30, 'os_assigned_configs': 5, 'multi_host_configs': 8,
-            'unix_configs': 4, 'port_files_checked': 15, 'primary_identity_checked': 15, 'mode:threaded': 5, 'mode:local': 5, 'mode:remote': 5,
+            'unix_configs': 4, 'unix_with_port_number_reused_as_additional': 2, 'port_files_checked': 15, 'primary_identity_checked': 15, 'mode:threaded': 5, 'mode:local': 5, 'mode:remote': 5,
             'restarts_checked': 5, 'time_wait_left_on_endpoint': 5, 'shutdowns_with_busy_client': 8, 'second_instances_checked': 4, 'cli_stops_checked': 4}
 
 
